@@ -11,6 +11,8 @@ CONSTANTS
   MaxErrors = 0
   PoissonIncs = {}
   ExtAt = {}
+  WaitExtAt = {}
+  WaitOffsets = {}
   TimerBeforeRampUp = TRUE
   LatencyEndsAtResponse = TRUE
 CHECK_DEADLOCK FALSE
